@@ -24,7 +24,9 @@ import (
 	"verif/engine/vlib"
 )
 
-const verifDir = "/verif"
+// verifDir is where the machinery lives; VERIF_DIR lets tools/mutcheck.sh run against a frozen
+// copy of it, so that checks of seeded changes are not disturbed by edits in progress.
+var verifDir = envOr("VERIF_DIR", "/verif")
 
 // repoDir, workDir and evidenceDir can be redirected through the environment so that a seeded
 // change can be checked in a scratch worktree without touching /repo, /verif/.work or the
